@@ -48,6 +48,8 @@ structure Assoc where
   tgtPhrase : String
   srcMany : Bool
   tgtMany : Bool
+  srcKeys : List String := []     -- referential attributes of the source class …
+  tgtKeys : List String := []     -- … and the identifying attributes of the target class they refer to (zipped)
   deriving Repr, Inhabited
 
 inductive CalleeKind where
@@ -182,11 +184,34 @@ def unrelate (C : Ctx) (x y : Inst) (rel phrase : String) (st : State) : Except 
       else .error ⟨"unrelate of instances that are not related across " ++ rel⟩
   else .error ⟨"unrelate of an instance that is not in the pool"⟩
 
-/-- attribute read `getattr(inst, name)` of a stored (non-derived) attribute -/
+/-- the formalisations of attribute `name` of class `cls`: (association index, referred identifying attribute),
+    in definition order (`Association.formalize`) -/
+def formalsFrom (cls name : String) : Nat → List Assoc → List (Nat × String)
+  | _, [] => []
+  | k, a :: rest =>
+    (if a.src = cls then ((a.srcKeys.zip a.tgtKeys).filter (fun p => p.1 = name)).map (fun p => (k, p.2)) else []) ++
+    formalsFrom cls name (k + 1) rest
+
+/-- a referential attribute reads as the referred identifying attribute of the instance related across the
+    formalising association, and as nothing (Python `None`) when there is none.  Domain: exactly one association
+    formalises the attribute and the referred attribute is a stored one. -/
+def refRead (C : Ctx) (i : Inst) (name : String) (st : State) : Except Err Val :=
+  match formalsFrom i.cls name 0 C.assocs with
+  | [(k, pk)] =>
+    match ((st.links k).filterMap (fun p => if p.1 = i then some p.2 else none)).head? with
+    | none => .ok .none
+    | some o =>
+      match findAttr C o.cls pk with
+      | some b => if b.referential then .error ⟨"referential attribute " ++ name ++ " refers to a referential attribute"⟩
+                  else .ok (st.attr o pk)
+      | none => .error ⟨"unknown attribute " ++ pk⟩
+  | _ => .error ⟨"referential attribute " ++ name ++ " is not formalised by exactly one association"⟩
+
+/-- attribute read `getattr(inst, name)` of a stored or referential (non-derived) attribute -/
 def getAttr (C : Ctx) (i : Inst) (name : String) (st : State) : Except Err Val :=
   if st.isLive i then
     match findAttr C i.cls name with
-    | some a => if a.referential then .error ⟨"referential attribute " ++ name⟩ else .ok (st.attr i name)
+    | some a => if a.referential then refRead C i name st else .ok (st.attr i name)
     | none => .error ⟨"unknown attribute " ++ name⟩
   else .error ⟨"attribute read of a deleted instance"⟩
 
@@ -246,19 +271,22 @@ def follow (st : State) (l : LinkRef) (i : Inst) : List Inst :=
   if l.toSource then (st.links l.k).filterMap (fun p => if p.2 = i then some p.1 else none)
   else (st.links l.k).filterMap (fun p => if p.1 = i then some p.2 else none)
 
+/-- the probe `_find_assoc_links` makes on one link `l1` of the class: same rel id and phrase, and the far class has the
+    wanted link -/
+def viaProbe (C : Ctx) (s : NavStep) (l1 : LinkRef) : Option (LinkRef × LinkRef) :=
+  if l1.rel = s.rel ∧ l1.phrase = s.phrase then
+    match (linksOf C l1.to).find? (fun l2 => l2.to = s.kl ∧ l2.rel = s.rel ∧ l2.phrase = s.phrase) with
+    | some l2 => some (l1, l2)
+    | none => none
+  else none
+
 /-- `MetaClass.navigate(inst, kind, rel_id, phrase)`: a direct link, or across an association class -/
 def navStep (C : Ctx) (st : State) (i : Inst) (s : NavStep) : Except Err (List Inst) :=
   let ls := linksOf C i.cls
   match ls.find? (fun l => l.to = s.kl ∧ l.rel = s.rel ∧ l.phrase = s.phrase) with
   | some l => .ok (follow st l i)
   | none =>
-    let via := ls.filterMap (fun l1 =>
-      if l1.rel = s.rel ∧ l1.phrase = s.phrase then
-        match (linksOf C l1.to).find? (fun l2 => l2.to = s.kl ∧ l2.rel = s.rel ∧ l2.phrase = s.phrase) with
-        | some l2 => some (l1, l2)
-        | none => none
-      else none)
-    match via with
+    match ls.filterMap (viaProbe C s) with
     | (l1, l2) :: _ => .ok (dedup ((follow st l1 i).flatMap (follow st l2)))
     | [] => .error ⟨"unknown link " ++ i.cls ++ "->" ++ s.kl ++ "[" ++ s.rel ++ "]"⟩
 
